@@ -509,7 +509,7 @@ static void run_registry(void)
     for (int d = 1; d <= depth; d++) { memset(&shadow, 0, sizeof shadow); dfs(acts, 0, d, &shadow); }
     mon_count0("exhaustive_depth", depth);
     /* random histories up to length 200, several counter presets */
-    int nrand = MO.thorough ? 3000 : 300;
+    int nrand = MO.thorough ? 20000 : 300;
     for (int i = 0; i < nrand; i++) {
         rng_t r; rng_seed(&r, MO.seed, 0x14000 + (uint64_t)i);
         int len = 10 + (int)rng_below(&r, 191);
@@ -715,7 +715,7 @@ static void run_leaks(void)
     { cfg_t c = { EC_BACKEND_LIBERASURECODE_RS_VAND, 2, 1, 1, 0, CHKSUM_CRC32 }; live_t L; if (live_open(&L, &c, 10, 1) == 0) live_close(&L);
       if (isal_ok) { cfg_t c2 = { EC_BACKEND_ISA_L_RS_VAND, 2, 1, 1, 0, CHKSUM_CRC32 }; if (live_open(&L, &c2, 10, 1) == 0) live_close(&L); }
       ledger_refresh(); }
-    int nh = MO.thorough ? 10000 : 480;
+    int nh = MO.thorough ? 40000 : 480;
     for (int h = 0; h < nh; h++) {
         rng_t r; rng_seed(&r, MO.seed, 0x16500 + (uint64_t)h);
         int len = 20 + (int)rng_below(&r, 281);
@@ -876,7 +876,7 @@ static void run_faults(void)
             }
         }
         /* random subsets failing together: several ops fail at random positions within one run */
-        int nr = MO.thorough ? 200 : 20;
+        int nr = MO.thorough ? 3000 : 20;
         for (int i = 0; i < nr; i++) {
             if (!mon_case("%s|random-fault#%d", ck, i)) continue;
             rng_t rr; rng_case(&rr);
